@@ -95,14 +95,39 @@ theorem checkSegs_scope (env : Env) (cur : Scope) (sid : Nat) (span : Span) (var
         simp only [hv, ← hd, vIf, scopeDs_cons, RDiag.at, Rule.isScoping]
         simpa using checkSegs_scope env cur sid span _ rfl rest _
 
+theorem scopeDs_flatten_nil : ∀ (ls : List (List RDiag)), (∀ l ∈ ls, scopeDs l = []) → scopeDs ls.flatten = []
+  | [], _ => rfl
+  | l :: ls, h => by
+      simp only [List.flatten_cons, scopeDs_append, h l (by simp), List.nil_append]
+      exact scopeDs_flatten_nil ls (fun l' hl => h l' (by simp [hl]))
+
+theorem argDiags_scope (env : Env) (cur : Scope) (ck : ArgCheck) (args : List Expr) (ms : Span) :
+    scopeDs (argDiags env cur ck args ms) = [] := by
+  have key : ∀ (l : List Expr) (c : Expr → Bool),
+      scopeDs ((l.map fun a => errIf (c a) (RDiag.at .tyMethodArg ms)).flatten) = [] := by
+    intro l c
+    apply scopeDs_flatten_nil
+    intro x hx
+    simp only [List.mem_map] at hx
+    obtain ⟨a, _, rfl⟩ := hx
+    simp [scopeDs_errIf, Rule.isScoping]
+  unfold argDiags
+  split
+  · rfl
+  · exact key _ _
+  · split
+    · exact key _ _
+    · rfl
+  · exact key _ _
+  · exact key _ _
+  · exact key _ _
+
 theorem checkMethod_scope (env : Env) (cur : Scope) (sid : Nat) (rt : VType) (obj : Expr) (field : Bytes)
     (args : List Expr) (ms : Span) (f : Facts) :
     scopeDs (checkMethod env cur sid rt obj field args ms f).1 = [] := by
   unfold checkMethod
   split
-  · simp only [scopeDs_append, scopeDs_errIf, Rule.isScoping, Bool.false_eq_true, if_false,
-      List.nil_append]
-    split <;> simp [scopeDs_errIf, Rule.isScoping]
+  · simp [scopeDs_errIf, Rule.isScoping, argDiags_scope]
   · simp [scopeDs_errIf, Rule.isScoping]
 
 theorem vIf_undeclared (env : Env) (cur : Scope) (c : Ctx) (hv : c.vars = absVars (cur :: env.vars))
@@ -142,8 +167,9 @@ mutual
         rw [checkExpr_scope env cur sid c hv hf e]
         simp
     | .member o _ _ _, f => by
-        simp only [checkExpr, exprV]
-        exact checkExpr_scope env cur sid c hv hf o f
+        simp only [checkExpr, exprV, scopeDs_append, scopeDs_cons, RDiag.at, Rule.isScoping]
+        rw [checkExpr_scope env cur sid c hv hf o f]
+        simp
     | .call callee args _ s, f => by
         cases callee with
         | var fname vb vs =>
@@ -172,39 +198,45 @@ mutual
           cases hi : inferExpr env cur obj with
           | some rt => simp [checkMethod_scope]
           | none => simp
-        | num l s' => simp [checkExpr, exprV, checkExprs_scope env cur sid c hv hf args]
-        | bool b s' => simp [checkExpr, exprV, checkExprs_scope env cur sid c hv hf args]
-        | null s' => simp [checkExpr, exprV, checkExprs_scope env cur sid c hv hf args]
+        | num l s' => simp [checkExpr, exprV, checkExprs_scope env cur sid c hv hf args, scopeDs_cons, RDiag.at, Rule.isScoping]
+        | bool b s' => simp [checkExpr, exprV, checkExprs_scope env cur sid c hv hf args, scopeDs_cons, RDiag.at, Rule.isScoping]
+        | null s' => simp [checkExpr, exprV, checkExprs_scope env cur sid c hv hf args, scopeDs_cons, RDiag.at, Rule.isScoping]
         | str p s' =>
           have h := checkExpr_scope env cur sid c hv hf (.str p s') f
           rw [checkExpr.eq_def, exprV.eq_def]
-          simp only [scopeDs_append]
+          simp only [scopeDs_append, scopeDs_cons, RDiag.at, Rule.isScoping]
           rw [h, checkExprs_scope env cur sid c hv hf args]
+          simp
         | array es s' =>
           have h := checkExpr_scope env cur sid c hv hf (.array es s') f
           rw [checkExpr.eq_def, exprV.eq_def]
-          simp only [scopeDs_append]
+          simp only [scopeDs_append, scopeDs_cons, RDiag.at, Rule.isScoping]
           rw [h, checkExprs_scope env cur sid c hv hf args]
+          simp
         | index a i isp s' =>
           have h := checkExpr_scope env cur sid c hv hf (.index a i isp s') f
           rw [checkExpr.eq_def, exprV.eq_def]
-          simp only [scopeDs_append]
+          simp only [scopeDs_append, scopeDs_cons, RDiag.at, Rule.isScoping]
           rw [h, checkExprs_scope env cur sid c hv hf args]
+          simp
         | binary op l r s' =>
           have h := checkExpr_scope env cur sid c hv hf (.binary op l r s') f
           rw [checkExpr.eq_def, exprV.eq_def]
-          simp only [scopeDs_append]
+          simp only [scopeDs_append, scopeDs_cons, RDiag.at, Rule.isScoping]
           rw [h, checkExprs_scope env cur sid c hv hf args]
+          simp
         | unary op e s' =>
           have h := checkExpr_scope env cur sid c hv hf (.unary op e s') f
           rw [checkExpr.eq_def, exprV.eq_def]
-          simp only [scopeDs_append]
+          simp only [scopeDs_append, scopeDs_cons, RDiag.at, Rule.isScoping]
           rw [h, checkExprs_scope env cur sid c hv hf args]
+          simp
         | call c' a' f' s' =>
           have h := checkExpr_scope env cur sid c hv hf (.call c' a' f' s') f
           rw [checkExpr.eq_def, exprV.eq_def]
-          simp only [scopeDs_append]
+          simp only [scopeDs_append, scopeDs_cons, RDiag.at, Rule.isScoping]
           rw [h, checkExprs_scope env cur sid c hv hf args]
+          simp
   theorem checkExprs_scope (env : Env) (cur : Scope) (sid : Nat) (c : Ctx)
       (hv : c.vars = absVars (cur :: env.vars)) (hf : c.fns = absFns env.fns) :
       ∀ (es : List Expr) (f : Facts), scopeDs (checkExprs env cur sid es f).ds = exprsV c es
@@ -482,7 +514,7 @@ mutual
           (exprCtx_ok env cur.vars).2 t
         have he := checkExpr_scope env cur.vars f.stmtEffects.length _ (exprCtx_ok env cur.vars).1
           (exprCtx_ok env cur.vars).2 e
-        simp [checkStmt, stmtV, ht, he]
+        simp [checkStmt, stmtV, ht, he, scopeDs_errIf, Rule.isScoping]
     | .ifS c t e _ sp, f, _ => by
         have hc := checkExpr_scope env cur.vars f.stmtEffects.length _ (exprCtx_ok env cur.vars).1
           (exprCtx_ok env cur.vars).2 c
